@@ -165,7 +165,11 @@ def _gen_textgrid(rng, ntiers=(1, 5), nentries=(0, 7), keywords=False, min_gap=2
     classes = set()
     names = []
     gmin, gmax = None, None
-    for _ in range(rng.randrange(*ntiers)):
+    ntier = rng.randrange(*ntiers)
+    if rng.random() < 0.04:
+        ntier = rng.randrange(9, 13)  # more tiers than fit one decimal digit / a small split limit
+        classes.add("many-tiers")
+    for _ in range(ntier):
         name = gen_name(rng, keywords)
         while name in names:
             name = name + "_"
